@@ -202,7 +202,7 @@ static int run_life(const char* script_path, const char* trace_path, const char*
             bool executed = u.ctx == "s" || pass == 1;
             bool is3 = false; for (auto& on : kVVV) if (u.op == on.name) is3 = true;
             vj::W w; w.beginObj().kv("t", "obs").kv("k", !executed && !sig ? "skip" : is3 ? "vvv" : "vv").kv("op", u.op).kv("form", std::string("life:") + u.form + u.ctx).kv("w", W).kv("lvl", lvl.name)
-              .kv("imm", -1).kv("idx", -1).kv("sz", 0).kv("var", "s" + std::to_string(sid) + "f" + std::to_string(fi) + "p" + std::to_string(pass)).kv("hash", 0).kv("sig", sig);
+              .kv("imm", -1).kv("idx", -1).kv("sz", 0).kv("var", "s" + std::to_string(sid) + "p" + std::to_string(pass)).kv("tag", "f" + std::to_string(fi)).kv("hash", 0).kv("sig", sig);
             w.bytes("a", a, W); w.bytes("b", b, W); w.bytes("d0", d0, W);
             // a use that is skipped leaves its slot untouched (0xCD): recorded as an observation of kMov of the fill pattern
             w.bytes("out", io8 + kOffMem + 64 * u.slot, W);
